@@ -30,6 +30,7 @@ RULE += (' Also: block exceptions whose instances are falsy (__len__ == 0 / __bo
 RULE += (' Also: decorated function called with arguments it does not take (the TypeError is raised inside the context).')
 RULE += (' Also: the whole use made from inside an except block of the caller.')
 RULE += (' Also: Stop(Async)Iteration / RuntimeError subclasses with value equality; handlers raising a new but equal instance.')
+RULE += (' Also: clean-up after the yield raising StopAsyncIteration / RuntimeError; exceptions with lenient equality.')
 ASSUMPTIONS = ["contextlib.asynccontextmanager of the running interpreter is the reference",
                "__cause__/__context__ chains and messages are not compared"]
 EXHAUSTIVE = {"quick": True, "thorough": True}
@@ -57,7 +58,7 @@ HANDLER = ["none", "finally", "swallow", "reraise", "raise_new", "raise_new_from
            "finally_raise_std:AttributeError", "finally_raise_std:TypeError", "finally_raise_std:KeyError"]
 STD_RAISED = {"AttributeError": AttributeError, "TypeError": TypeError, "KeyError": KeyError, "LookupError": LookupError,
               "AssertionError": AssertionError, "OSError": OSError}
-AFTER = ["stop", "yield_again", "raise", "yield_again_none"]
+AFTER = ["stop", "yield_again", "raise", "yield_again_none", "raise_sai", "raise_sai_from_none", "raise_runtime"]
 class RuntimeSub(RuntimeError):
     pass
 
@@ -102,6 +103,17 @@ class EqRuntime(RuntimeError):
     __hash__ = None
 
 
+class LenientEq(Exception):
+    """Equal to anything: which exception is which is a matter of identity."""
+    __hash__ = None
+
+    def __eq__(self, other):
+        return True
+
+    def __ne__(self, other):
+        return False
+
+
 class FalsyError(Exception):
     """An exception INSTANCE that is falsy (an error that is also a sized collection of its sub-errors, empty here)."""
 
@@ -115,7 +127,7 @@ class FalsyRuntime(RuntimeError):
 
 
 OUTCOME = {"normal": None, "FalsyError": FalsyError, "FalsyRuntime": FalsyRuntime,
-           "EqStopAsync": EqStopAsync, "EqStop": EqStop, "EqRuntime": EqRuntime, "ValueError": ValueError, "Exception": Exception, "GeneratorExitSub": GeneratorExitSub,
+           "EqStopAsync": EqStopAsync, "EqStop": EqStop, "EqRuntime": EqRuntime, "LenientEq": LenientEq, "ValueError": ValueError, "Exception": Exception, "GeneratorExitSub": GeneratorExitSub,
            "BaseException": BaseException, "StopIteration": StopIteration,
            "StopAsyncIteration": StopAsyncIteration, "RuntimeError": RuntimeError, "GeneratorExit": GeneratorExit,
            "KeyboardInterrupt": KeyboardInterrupt, "New": New,
@@ -265,6 +277,14 @@ def make(pre, handler, after, log, susp):
             log.append("resumed3")
         elif after == "raise":
             raise New("after")
+        elif after == "raise_sai":
+            # the clean-up after the yield lets a StopAsyncIteration escape (an exhausted iterator it polled): the
+            # generator protocol turns it into a RuntimeError - a failure of the clean-up, not a clean stop
+            raise StopAsyncIteration("after")
+        elif after == "raise_sai_from_none":
+            raise StopAsyncIteration("after") from None
+        elif after == "raise_runtime":
+            raise RuntimeError("after")
         log.append("end")
 
     return gen
